@@ -34,7 +34,10 @@ impl<const CAP: usize> RecordMaybeUninit<CAP> {
     pub unsafe fn write<T>(&mut self, offset: usize, t: T) {
         #[cfg(truc_verif)]
         crate::verif::prim::<T>("write", self.data.as_ptr() as usize, CAP, offset);
-        std::ptr::write((self.data.as_mut_ptr().add(offset) as *mut u8).cast(), t);
+        // The record buffer by itself has no alignment requirement (alignment comes from the
+        // generated record types wrapping it), and generated constructors and conversions
+        // fill a local buffer before wrapping it: do not assume the destination is aligned.
+        std::ptr::write_unaligned((self.data.as_mut_ptr().add(offset) as *mut u8).cast(), t);
     }
 
     /// Gets a reference to object of type `T` from the record at offset `offset`.
